@@ -16,6 +16,7 @@ def wfA : Expr → Bool
   | .inArr e _ => wfA e
   | .incr _ _ e => e.isLValue && wfA e
   | .field e => wfA e
+  | .namedField e => wfA e
   | .index _ i => wfA i
   | .getline c t f =>
     (c == .none || wfA c) && (t == .none || (t.isLValue && wfA t)) && (f == .none || wfA f) && (c == .none || f == .none)
@@ -34,6 +35,7 @@ def wfFull : Expr → Bool
   | .inArr e _ => wfFull e
   | .incr _ _ e => e.isLValue && wfFull e
   | .field e => wfFull e
+  | .namedField e => wfFull e
   | .index _ i => wfFull i
   | .getline c t f =>
     (c == .none || wfFull c) && (t == .none || (t.isLValue && wfFull t)) && (f == .none || wfFull f) &&
@@ -57,6 +59,7 @@ theorem canon_mono (pc : Bool) (e : Expr) (k j : Nat) (h : canon pc k e = true) 
     simp only [canon, Bool.and_eq_true, decide_eq_true_eq] at h ⊢
     exact ⟨⟨⟨by omega, h.1.1.2⟩, h.1.2⟩, h.2⟩
   | none => simp [canon] at h
+  | namedField e => simp only [canon, Bool.and_eq_true, decide_eq_true_eq] at h ⊢; exact ⟨by omega, h.2⟩
   | inArr e a => simp only [canon, Bool.and_eq_true, decide_eq_true_eq] at h ⊢; exact ⟨by omega, h.2⟩
   | incr p d e =>
     cases p
@@ -134,6 +137,7 @@ theorem hd_ne_getline (e : Expr) : ∀ (pc : Bool) (k : Nat), canon pc k e = tru
   | field e _ => intros; simp [render, hd]
   | index a i _ => intros; simp [render, hd]
   | none => intro pc k hc; simp [canon] at hc
+  | namedField e _ => intros; simp [render, hd]
   | getline c t f _ _ _ =>
     intro pc k hc hk
     simp only [canon, Bool.and_eq_true] at hc
@@ -155,6 +159,7 @@ theorem closed_min (e : Expr) (hw : wfA e = true) (hnf : isField e = false) (hp 
   | inArr e a => simp [Expr.prec] at hp
   | incr p d e => simp [Expr.prec] at hp
   | none => simp [wfA] at hw
+  | namedField e => simp [isField] at hnf
   | group e => simp [wfA] at hw
   | getline c t f => simp [Expr.prec] at hp
 
@@ -274,6 +279,16 @@ theorem min_ok (e : Expr) (hwf : wfA e = true) : MinOk e := by
       · exact one_le_prec r
     · simp only [strip, hr.2, hl.2.2]
   | none => simp [wfA] at hwf
+  | namedField e ih =>
+    intro pc
+    simp only [wfA] at hwf
+    have hf := fit_ok e (ih hwf) false 14 (by omega)
+    rw [addMin]
+    refine ⟨?_, by simp only [strip, hf.2]⟩
+    intro k hk
+    simp only [topLevel, printSpecial, Bool.and_false, Bool.false_eq_true, if_false, Expr.prec] at hk
+    simp only [canon, Bool.and_eq_true, decide_eq_true_eq]
+    exact ⟨hk, hf.1⟩
   | group e _ => simp [wfA] at hwf
   | inArr e a ih =>
     intro pc
@@ -528,6 +543,13 @@ theorem full_ok (e : Expr) (hwf : wfA e = true) : FullOk e := by
       rw [addFull]; simp only [strip, hr.2, (ihl hwl).1.2]
     exact ⟨⟨h1, h2⟩, grp_ok _ h1 h2 (by intro h; simp [isAtom] at h) (by intro h; simp [isAtom] at h)⟩
   | none => simp [wfA] at hwf
+  | namedField e ih =>
+    simp only [wfA] at hwf
+    have he := (ih hwf).2
+    have h1 : canon false 1 (addFull (.namedField e)) = true := by
+      rw [addFull]; simp only [canon, Bool.and_eq_true, decide_eq_true_eq]; exact ⟨by omega, he.1 false 14 (by omega)⟩
+    have h2 : strip (addFull (.namedField e)) = .namedField e := by rw [addFull]; simp only [strip, he.2]
+    exact ⟨⟨h1, h2⟩, grp_ok _ h1 h2 (by intro h; simp [isAtom] at h) (by intro h; simp [isAtom] at h)⟩
   | group e _ => simp [wfA] at hwf
   | inArr e a ih =>
     simp only [wfA] at hwf
@@ -661,6 +683,11 @@ theorem depth_lt_render (e : Expr) : ∀ pc k, canon pc k e = true → depth e <
     · rw [Nat.max_eq_right hle]; omega
     · rw [Nat.max_eq_left hle]; omega
   | none => intro pc k h; simp [canon] at h
+  | namedField e ih =>
+    intro pc k h
+    simp only [canon, Bool.and_eq_true] at h
+    have := ih _ _ h.2
+    simp only [depth, render, List.length_cons]; omega
   | inArr e a ih =>
     intro pc k h
     simp only [canon, Bool.and_eq_true] at h
